@@ -310,7 +310,7 @@ impl StdBroker {
                 if d.nowait {
                     return None;
                 }
-                let (a, b) = Self::reply_values(chan, s);
+                let (a, b) = if d.queue == "emptyq" { (0, 0) } else { Self::reply_values(chan, s) };
                 let name = if d.queue.is_empty() { format!("gen-{}-{}", chan, s) } else { d.queue.clone() };
                 self.replies.push((chan, s, format!("declare-ok {} {} {}", name, a, b)));
                 f(Queue(queue::AMQPMethod::DeclareOk(queue::DeclareOk { queue: name, message_count: a, consumer_count: b })))
